@@ -423,14 +423,16 @@ func (s *State) diffIOSACLs(al, bl []*cmd, diff []edit.Range) {
 	// Generate move command which sends add and delete command together
 	// as a single command.
 	// Ignore move if both positions belong to the same block.
-	moveACL := func(a *cmdAndPos, b *cmd, before, i int, moveOK bool) {
+	// Block of line below is only reached if all following added lines
+	// have the same action.
+	moveACL := func(a *cmdAndPos, b *cmd, before, i int, moveOK, sameAct bool) {
 		defer func() { a.cmd = nil }()
 		if moveOK {
 			oldID := idx2Block[a.pos]
 			if before > 0 && idx2Block[before-1] == oldID {
 				return
 			}
-			if before < len(idx2Block) && idx2Block[before] == oldID {
+			if sameAct && before < len(idx2Block) && idx2Block[before] == oldID {
 				return
 			}
 		}
@@ -516,13 +518,16 @@ func (s *State) diffIOSACLs(al, bl []*cmd, diff []edit.Range) {
 				errlog.Abort("Can't insert more than 9999 ACL lines at once")
 			}
 			action0 := getIOSAction(bl[r.LowB])
+			sameAct := !slices.ContainsFunc(bl[r.LowB:r.HighB], func(c *cmd) bool {
+				return getIOSAction(c) != action0
+			})
 			moveOK := true
 			for i, b := range bl[r.LowB:r.HighB] {
 				moveOK = moveOK && action0 == getIOSAction(b)
 				p := s.printNetspocCmd(b)
 				p = stripLogRX.ReplaceAllLiteralString(p, "")
 				if cmdPos, found := delMap[p]; found {
-					moveACL(cmdPos, b, r.LowA, i, moveOK)
+					moveACL(cmdPos, b, r.LowA, i, moveOK, sameAct)
 				} else {
 					addACL(b, r.LowA, i)
 				}
